@@ -292,6 +292,7 @@ Step(e, s, rw, sl, ak, ls) ==
          ELSE Res(<<"C03:call-ended-while-a-reply-was-pending">>, "ret-out-of-turn", OnRet(s), rw, sl)
     [] OTHER -> Res(<<"unknown-event">>, "unknown", s, rw, sl)
 
+FrameCountOk(s) == s.op # "none" => s.n <= MaxCmdFrames(s.op)
 Fresh == [c \in 1..MaxC |-> Blanked]
 Empty3 == [c \in 1..MaxC |-> <<>>]
 Init == i = 1 /\ bad = <<>> /\ dropped = 0 /\ tags = <<>> /\ st = Fresh
@@ -305,7 +306,10 @@ Next ==
          l0 == IF new THEN <<>> ELSE slots[e.c]
          a0 == IF new THEN NoAsk ELSE ask[e.c]
          d0 == IF new THEN FALSE ELSE listed[e.c]
-         r == Step(e, s0, r0, l0, a0, d0)
+         r1 == Step(e, s0, r0, l0, a0, d0)
+         \* the client model's invariant, evaluated in every state of every recorded behaviour; a violation is a verdict like
+         \* any other (a hard INVARIANT would stop TLC and leave the rest of the recording unexamined)
+         r == [r1 EXCEPT !.why = @ \o (IF FrameCountOk(r1.s) THEN <<>> ELSE <<"C03:invariant-frame-count-bounded">>)]
      IN /\ bad' = IF r.why = <<>> THEN bad ELSE AddBad(bad, e, r.why)
         /\ dropped' = IF r.why = <<>> THEN dropped ELSE Dropped(bad, dropped)
         /\ tags' = Bump(tags, r.tag)
@@ -322,6 +326,6 @@ vars == <<i, bad, dropped, tags, st, raw, slots, ask, listed, tid>>
 Spec == Init /\ [][Next]_vars
 Done == i = NEvents + 1 => WriteVerdict(bad, dropped, tags)
 
-\* invariants of the client model evaluated along every recorded behaviour
-FrameCountBounded == \A c \in 1..MaxC : st[c].op # "none" => st[c].n <= MaxCmdFrames(st[c].op)
+\* the hard form of FrameCountOk: only ever false in a state whose step already carries the clause above
+FrameCountBounded == \A c \in 1..MaxC : FrameCountOk(st[c])
 =============================================================================
